@@ -321,8 +321,9 @@ fn output_result_xml<T: serde::Serialize>(result: T) -> Result<()> {
         std::borrow::Cow::Owned(name)
     }
 
-    // Escape text for an XML 1.1 document: the markup characters, and the control characters
-    // which are only allowed as character references (NUL is not allowed at all).
+    // Escape text for an XML 1.1 document: the markup characters, the control characters which
+    // are only allowed as character references (NUL is not allowed at all), and the characters a
+    // parser would otherwise normalize to a line feed.
     fn escape_xml_text(text: &str) -> String {
         let mut escaped = String::with_capacity(text.len());
         for c in text.chars() {
@@ -333,7 +334,7 @@ fn output_result_xml<T: serde::Serialize>(result: T) -> Result<()> {
                 '\'' => escaped.push_str("&apos;"),
                 '"' => escaped.push_str("&quot;"),
                 '\0' | '\u{FFFE}' | '\u{FFFF}' => escaped.push('\u{FFFD}'),
-                '\u{1}' ..= '\u{8}' | '\u{B}' ..= '\u{C}' | '\u{E}' ..= '\u{1F}' | '\u{7F}' ..= '\u{84}' | '\u{86}' ..= '\u{9F}' => {
+                '\u{1}' ..= '\u{8}' | '\u{B}' ..= '\u{1F}' | '\u{7F}' ..= '\u{9F}' | '\u{2028}' => {
                     escaped.push_str(&format!("&#x{:X};", c as u32))
                 }
                 c => escaped.push(c),
